@@ -4,6 +4,8 @@ One run = one synthesised product on one storage back-end + one uncached open wi
 ``records_per_chunk`` + a full load of every image, compared word for word with the truth
 model of the synthesiser.
 """
+import numpy as np
+
 from .. import world
 from ..oracle import Violation, bits_of, exc_text, first_mismatch, pattern_class
 from ..sim import SIM
@@ -122,6 +124,26 @@ def _check_world(w, r, violations, keys, tag):
                     site += "/sibling-" + pattern_class(truth[sib], prod.level)
                 mm.update({"group": grp, "rpc": r, "shape": [n, p], "backend": w.backend})
                 violations.append(Violation(ID, "pixel-mismatch", site, mm))
+                continue
+            # block-by-block reading with the blocks kept: every block must still equal the file
+            # after the later blocks were read through the same variable
+            h = max(n // 2, 1)
+            blocks = [(slice(0, h), None), (slice(h, n), None), (0, None), (n - 1, None)]
+            try:
+                held = [(ix, da[ix].values) for ix, _ in blocks if not (ix == slice(h, n) and h == n)]
+            except Exception as e:  # noqa: BLE001
+                violations.append(Violation(ID, "load-raised", "block:" + type(e).__name__,
+                                            {"group": grp, "error": exc_text(e), "rpc": r,
+                                             "shape": [n, p]}))
+                continue
+            for ix, vals_b in held:
+                want = truth[ix]
+                bits = bits_of(vals_b, prod.level)
+                if bits is None or bits.shape != want.shape or (bits != want).any():
+                    violations.append(Violation(ID, "pixel-mismatch", tag + "held-block:" + prod.level, {
+                        "group": grp, "rpc": r, "shape": [n, p], "block": repr(ix),
+                        "got_shape": list(np.shape(vals_b))}))
+                    break
 
 
 def shrink(plan):
